@@ -146,7 +146,11 @@ func runC16(c *Ctx) {
 			c.Analysed(shortFn(fn))
 			parts := joinParts(fn, st.path)
 			okPath := len(parts) == 2 && strings.HasSuffix(parts[0], ".Path") && strings.HasSuffix(parts[1], ".Spec.Name")
-			c.Check("R16.3", "os.Mkdir path is Join(<out>, <name>) in "+shortFn(fn), st.pos, okPath, fmt.Sprintf("directory path is built from %v", parts))
+			if !okPath && partsUnknown(parts) {
+				c.Undecided("R16.3", "os.Mkdir path is Join(<out>, <name>) in "+shortFn(fn), st.pos, fmt.Sprintf("the directory path is built in a way this rule does not follow: %v", parts))
+			} else {
+				c.Check("R16.3", "os.Mkdir path is Join(<out>, <name>) in "+shortFn(fn), st.pos, okPath, fmt.Sprintf("directory path is built from %v", parts))
+			}
 			// validity test dominates
 			guarded := false
 			var guardArg string
@@ -168,7 +172,11 @@ func runC16(c *Ctx) {
 			c.Analysed(shortFn(fn))
 			parts := joinParts(fn, st.path)
 			okPath := len(parts) == 3 && strings.HasSuffix(parts[0], ".Path") && strings.HasSuffix(parts[1], ".Spec.Name") && strings.HasPrefix(parts[2], "param:")
-			c.Check("R16.3", "os.OpenFile path is Join(<out>, <name>, <file>) in "+shortFn(fn), st.pos, okPath, fmt.Sprintf("file path is built from %v", parts))
+			if !okPath && partsUnknown(parts) {
+				c.Undecided("R16.3", "os.OpenFile path is Join(<out>, <name>, <file>) in "+shortFn(fn), st.pos, fmt.Sprintf("the file path is built in a way this rule does not follow: %v", parts))
+			} else {
+				c.Check("R16.3", "os.OpenFile path is Join(<out>, <name>, <file>) in "+shortFn(fn), st.pos, okPath, fmt.Sprintf("file path is built from %v", parts))
+			}
 		}
 	}
 	// no store to Spec.Name inside the generator package (the validated name stays the created name)
@@ -705,4 +713,14 @@ func checkRun(c *Ctx) {
 		}
 	}
 	c.Check("R16.3", "Run: -name replaces the grammar's name before generation", fd.Pos(), over, "no guarded store of the -name flag into the specification's name precedes Generate")
+}
+
+// partsUnknown: the path was not resolved into elements (a helper with a variadic tail, a computed list, ...).
+func partsUnknown(parts []string) bool {
+	for _, p := range parts {
+		if strings.HasPrefix(p, "<") {
+			return true
+		}
+	}
+	return len(parts) == 0
 }
